@@ -6,14 +6,17 @@ class C03(DTDCheck):
     prop_file = "theories/Properties/Properties_C03.v"
     theorems = ("C03_edges_sound", "C03_chain_edges_complete", "C03_dag_serialisable",
                 "C03_observations_sequential", "C03_runs_at_most_once", "C03_progress",
-                "C03_stuck_means_all_done", "C03_complete_run_exists", "C03_window_gate_admissible")
+                "C03_stuck_means_all_done", "C03_complete_run_exists", "C03_window_gate_admissible",
+                "C03_mechanism_refines_protocol")
     level_text = ("Theorems over the DTD protocol model (insertion sequence = list of tasks with R/W/RW accesses, data may "
                   "repeat inside a task; per-datum chain last-writer/readers built flow by flow as parsec_insert_dtd_task "
                   "does; engine with Insert/Begin/End events, any number of running tasks, arbitrary window gate): for EVERY "
                   "sequence, body function, window and EVERY event list, each task's observed inputs and the final data equal "
                   "those of the sequential execution in insertion order; the built edges are exactly the conflicts of the "
                   "insertion order (sound + complete up to transitivity); a task runs at most once; no reachable state is "
-                  "stuck before all tasks are done and a complete run exists. Full for the single-process protocol model. "
+                  "stuck before all tasks are done and a complete run exists. Full for the single-process protocol model; the "
+                  "flow-level mechanism model (DTD/DTDGate.v, with the guard of notes/findings/C03-stale-last-user.patch) is "
+                  "proved to refine the protocol engine (C03_mechanism_refines_protocol). "
                   "Tie T-obs: the real parsec_dtd_insert_task / scheduler run generated sequences on real tiles under "
                   "several (threads, scheduler, window, threshold) configurations; observed inputs, final data and execution "
                   "counts are compared with the extracted seq_dtd and decided by a Python replay of the sequence.")
@@ -28,7 +31,8 @@ class C03(DTDCheck):
     rule = ("random insertion sequences (styles: mixed, reader groups between writers, RW chains, independent groups, wide "
             "tasks; <= 60 tasks quick / 200 thorough, <= 6 data, modes R/W/RW, empty tasks) each under 2-3 of the run's "
             "configurations (threads 1..16, schedulers lfq ap gd ltq lhq pbq spq rnd, dtd_window_size 0..16 with threshold, "
-            "hold = whole DAG unrolled before execution, with/without flush); non-trivial = the sequence has a dependency; "
+            "hold = whole DAG unrolled before execution, with/without flush, one case in six with the tail of the sequence "
+            "inserted by the body of the last top-level task); non-trivial = the sequence has a dependency; "
             "distinct = case text")
     trusted = ("harness/h_dtd.c: test-owned bodies record inputs / write F(task, inputs); one worker process per configuration",
                "checks/dtd_common.py: Python replay of the sequence (oracle), independent of the Coq model")
@@ -36,9 +40,8 @@ class C03(DTDCheck):
                    "a task names a datum at most once in the differential stream (repeated data: known defects, oracle only)",
                    "schedulers that re-select an AGAIN task immediately (ll, llp, ip) excluded from the differential stream")
 
-    def oracle(self, case, obs):
-        v = c03_verdict(case, obs)
-        return v[1] if v else None
+    def verdict(self, case, obs):
+        return c03_verdict(case, obs)
 
     def defect_cases(self):
         out = []
